@@ -128,4 +128,10 @@ theorem wdm_component_wiring :
 /-- the WDM module contains no numeric special case beyond the particle-mass validator -/
 theorem guards_wdm : Gen.Guards.wdm = Spec.Guards.wdm := by decide
 
+/-- C17: the inputs `Oc0` and `rho_mean` of the WDM formulae are the present-day CDM density parameter and the mean density at the
+    component's redshift -/
+theorem wdm_derived_inputs :
+    Gen.Flow.wiring.lookup "WDM.__init__.Oc0" = some Spec.Wiring.wdmOc0 ∧
+    Gen.Flow.wiring.lookup "WDM.__init__.rho_mean" = some Spec.Wiring.wdmRhoMean := by decide
+
 end Hmf.C17
